@@ -1034,6 +1034,16 @@ def m_sum(I, t, dim=None, keepdim=False, dtype=None):
     return CT(_reduce(src, dim, sc_add, 0, keepdim), dt)
 
 
+@method("prod")
+def m_prod(I, t, dim=None, keepdim=False, dtype=None):
+    if dim is None:
+        acc = 1
+        for v in t.a.reshape(-1):
+            acc = sc_mul(acc, v)
+        return CT(obj_array(acc), t.dtype)
+    return CT(_reduce(t, dim, sc_mul, 1, keepdim), t.dtype)
+
+
 @method("any")
 def m_any(I, t, dim=None, keepdim=False):
     src = t.cast("bool") if t.dtype != "bool" else t
@@ -1101,6 +1111,7 @@ def _minmax_reduce(I, t, dim, keepdim, is_min):
             I.ex.assume(z3.And(k >= 0, k < n))
             I.ex.assume(att if not isinstance(att, bool) else z3.BoolVal(att))
             idxs[pos] = k
+        I.ex.ghost.setdefault("argext", []).append((src, d, idxs.copy()))  # copy: the index tensor may be written in place later
         return np.expand_dims(idxs, d) if keepdim else idxs
 
     if keepdim:
